@@ -24,12 +24,12 @@ use metrique::unit_of_work::metrics;
 use metrique::writer::value::ToString;
 use metrique_aggregation::aggregate;
 use metrique_aggregation::aggregator::{Aggregate, KeyedAggregator};
-use metrique_aggregation::histogram::{Histogram, SortAndMerge};
+use metrique_aggregation::histogram::{Histogram, HistogramClosed, SortAndMerge};
 use metrique_aggregation::sink::{MutexSink, TeeSink, WorkerSink, non_aggregate};
-use metrique_aggregation::traits::{AggregateSink, AggregateStrategy, FlushableSink, Key, RootSink};
+use metrique_aggregation::traits::{AggregateSink, AggregateStrategy, AggregateValue, FlushableSink, Key, MergeRef, RootSink};
 use metrique_aggregation::value::{Distribution, KeepLast, Sum};
 use metrique_writer::test_util::{Inspector, TestEntry, test_entry_sink, test_metric, to_test_entry};
-use metrique_writer::{AnyEntrySink, BoxEntrySink, Entry};
+use metrique_writer::{AnyEntrySink, BoxEntrySink, Entry, Observation, ValueWriter};
 use rand::Rng;
 use serde_json::{Value, json};
 use std::collections::{BTreeMap, HashMap};
@@ -66,7 +66,7 @@ impl CloseValue for ConstKey {
     }
 }
 
-#[aggregate(ref)]
+#[aggregate]
 #[metrics]
 pub struct In {
     #[aggregate(key)]
@@ -82,6 +82,68 @@ pub struct In {
     obs: Duration,
     #[aggregate(strategy = Distribution)]
     obs2: u64,
+    /// the input itself carries a histogram: its closed observations (possibly repeated) are replayed
+    /// into the aggregate's exact histogram (`AggregateValue<HistogramClosed<T>>`)
+    #[aggregate(strategy = Histogram<Duration, SortAndMerge>)]
+    hs: Histogram<Duration, SortAndMerge>,
+    /// ... into an exponential histogram (compared by count only)
+    #[aggregate(strategy = Histogram<Duration>)]
+    he: Histogram<Duration>,
+    /// ... and through `Histogram::add_value` of a histogram of closed histograms
+    #[aggregate(strategy = Histogram<HistogramClosed<Duration>, SortAndMerge>)]
+    hv: Histogram<Duration, SortAndMerge>,
+}
+
+/// By-reference merge for the tee (the macro's `#[aggregate(ref)]` needs Copy/Clone fields, a closed
+/// histogram is neither): plain fields are copied, the closed histograms are replayed observation by
+/// observation (`hs`, `he`) resp. through `add_value(&closed)` (`hv`).
+impl MergeRef for InEntry {
+    #[allow(deprecated)]
+    fn merge_ref(accum: &mut Self::Merged, input: &Self) {
+        <Sum as AggregateValue<u64>>::insert(&mut accum.sum, input.sum);
+        <KeepLast as AggregateValue<u64>>::insert(&mut accum.last, input.last);
+        accum.obs.add_value(input.obs);
+        <Distribution as AggregateValue<u64>>::insert(&mut accum.obs2, input.obs2);
+        for ms in observations_of(&input.hs) {
+            accum.hs.add_value(Duration::from_secs_f64(ms / 1000.0));
+        }
+        for ms in observations_of(&input.he) {
+            accum.he.add_value(Duration::from_secs_f64(ms / 1000.0));
+        }
+        accum.hv.add_value(&input.hv);
+    }
+}
+
+/// every observation a closed histogram writes, repeated ones expanded
+fn observations_of(h: &HistogramClosed<Duration>) -> Vec<f64> {
+    struct W<'a>(&'a mut Vec<f64>);
+    impl ValueWriter for W<'_> {
+        fn string(self, _value: &str) {}
+        fn metric<'a>(
+            self,
+            distribution: impl IntoIterator<Item = Observation>,
+            _unit: metrique_writer::Unit,
+            _dimensions: impl IntoIterator<Item = (&'a str, &'a str)>,
+            _flags: metrique_writer::MetricFlags<'_>,
+        ) {
+            for o in distribution {
+                match o {
+                    Observation::Unsigned(v) => self.0.push(v as f64),
+                    Observation::Floating(v) => self.0.push(v),
+                    Observation::Repeated { total, occurrences } => {
+                        for _ in 0..occurrences {
+                            self.0.push(total / occurrences as f64)
+                        }
+                    }
+                    _ => {}
+                }
+            }
+        }
+        fn error(self, _error: metrique_writer::ValidationError) {}
+    }
+    let mut v = Vec::new();
+    metrique_writer::Value::write(h, W(&mut v));
+    v
 }
 
 /// the same fields without a key: for `Aggregate<T>` embedded in a parent entry
@@ -96,6 +158,16 @@ pub struct InNk {
     obs: Duration,
     #[aggregate(strategy = Distribution)]
     obs2: u64,
+    /// the input itself carries a histogram: its closed observations (possibly repeated) are replayed
+    /// into the aggregate's exact histogram (`AggregateValue<HistogramClosed<T>>`)
+    #[aggregate(strategy = Histogram<Duration, SortAndMerge>)]
+    hs: Histogram<Duration, SortAndMerge>,
+    /// ... into an exponential histogram (compared by count only)
+    #[aggregate(strategy = Histogram<Duration>)]
+    he: Histogram<Duration>,
+    /// ... and through `Histogram::add_value` of a histogram of closed histograms
+    #[aggregate(strategy = Histogram<HistogramClosed<Duration>, SortAndMerge>)]
+    hv: Histogram<Duration, SortAndMerge>,
 }
 
 #[aggregate(direct)]
@@ -171,9 +243,34 @@ struct Conc {
     /// how model keys become concrete keys: 0 = only the constant-hash key differs,
     /// 1 = only the string differs, 2 = both differ
     key_mode: u8,
+    /// id of the model input being built (selects the shape of its own histogram) and number of
+    /// value symbols of the behaviour
+    cur_id: std::cell::Cell<u64>,
+    nvals: u64,
 }
 
 impl Conc {
+    /// observation values (ms) of the input's own histogram: Aggregation.tla's HBag
+    fn hbag(&self, v: u64) -> Vec<u64> {
+        let shape = (self.cur_id.get() + v) % 4;
+        let other = (v % self.nvals) + 1;
+        let o = |x: u64| self.vals[x as usize - 1].2;
+        let mut out = vec![o(v)];
+        if shape == 1 || shape == 3 {
+            out.push(o(v));
+        }
+        if (shape == 2 || shape == 3) && other != v {
+            out.push(o(other));
+        }
+        out
+    }
+    fn hist<S: metrique_aggregation::histogram::AggregationStrategy + Default>(&self, v: u64) -> Histogram<Duration, S> {
+        let mut h = Histogram::<Duration, S>::default();
+        for ms in self.hbag(v) {
+            h.add_value(Duration::from_millis(ms));
+        }
+        h
+    }
     fn new(rng: &mut impl Rng) -> Conc {
         let mut vals = Vec::new();
         let mut used = std::collections::HashSet::new();
@@ -188,7 +285,7 @@ impl Conc {
                 }
             }
         }
-        Conc { vals, key_mode: rng.random_range(0..3) }
+        Conc { vals, key_mode: rng.random_range(0..3), cur_id: std::cell::Cell::new(0), nvals: 2 }
     }
     fn key(&self, k: u64) -> (ConstKey, String) {
         match self.key_mode {
@@ -200,11 +297,11 @@ impl Conc {
     fn input(&self, k: u64, v: u64) -> In {
         let (ck, name) = self.key(k);
         let (sum, last, obs, obs2) = self.vals[v as usize - 1];
-        In { ck, name, sum, last, obs: Duration::from_millis(obs), obs2 }
+        In { ck, name, sum, last, obs: Duration::from_millis(obs), obs2, hs: self.hist(v), he: self.hist(v), hv: self.hist(v) }
     }
     fn input_nk(&self, v: u64) -> InNk {
         let (sum, last, obs, obs2) = self.vals[v as usize - 1];
-        InNk { sum, last, obs: Duration::from_millis(obs), obs2 }
+        InNk { sum, last, obs: Duration::from_millis(obs), obs2, hs: self.hist(v), he: self.hist(v), hv: self.hist(v) }
     }
     fn input_dir(&self, v: u64) -> InDir {
         let (sum, last, obs, obs2) = self.vals[v as usize - 1];
@@ -219,6 +316,10 @@ struct Agg {
     last: Option<u64>,
     obs: Vec<u64>,
     obs2: Vec<u64>,
+    /// histogram-of-histogram fields: exact observations (hs, hv) and number of observations (he)
+    hs: Vec<u64>,
+    hv: Vec<u64>,
+    he: u64,
 }
 
 fn metric_list(e: &TestEntry, name: &str) -> Vec<u64> {
@@ -237,6 +338,9 @@ fn agg_of_entry(e: &TestEntry) -> Agg {
         last: e.metrics.get("last").and_then(|m| m.flatten_and_sort().first().map(|f| *f as u64)),
         obs: metric_list(e, "obs"),
         obs2: metric_list(e, "obs2"),
+        hs: metric_list(e, "hs"),
+        hv: metric_list(e, "hv"),
+        he: e.metrics.get("he").map(|m| m.num_observations()).unwrap_or(0),
     }
 }
 
@@ -256,8 +360,15 @@ fn agg_of_model(c: &Conc, a: &Value) -> Agg {
     }
     obs.sort();
     obs2.sort();
+    let mut hs = Vec::new();
+    for (i, n) in a["hbag"].as_array().unwrap().iter().enumerate() {
+        for _ in 0..n.as_u64().unwrap() {
+            hs.push(c.vals[i].2);
+        }
+    }
+    hs.sort();
     let last = a["last"].as_u64().unwrap();
-    Agg { sum, last: if last == 0 { None } else { Some(c.vals[last as usize - 1].1) }, obs, obs2 }
+    Agg { sum, last: if last == 0 { None } else { Some(c.vals[last as usize - 1].1) }, obs, obs2, he: hs.len() as u64, hv: hs.clone(), hs }
 }
 
 fn fine_key_of_entry(e: &TestEntry) -> String {
@@ -344,7 +455,8 @@ fn compare_batch(
     for (k, e) in &em {
         let g = &gm[k][0];
         if g != e {
-            let field = if g.sum != e.sum { "summed field" } else if g.last != e.last { "keep-last field" } else { "distribution field" };
+            let field = if g.sum != e.sum { "summed field" } else if g.last != e.last { "keep-last field" }
+                        else if g.obs != e.obs || g.obs2 != e.obs2 { "distribution field" } else { "distribution field fed by the inputs' own histograms" };
             mism.push(json!({"step": step, "sink": what, "what": format!("{field} of the aggregate for key {k}"),
                              "expected": format!("{e:?}"), "got": format!("{g:?}")}));
         }
@@ -387,7 +499,7 @@ impl Target for TKeyed {
     fn gmutate(&mut self, c: &Conc, g: u64, v: u64) {
         let x = self.held.get_mut(&g).unwrap();
         let n = c.input(1, v);
-        (x.sum, x.last, x.obs, x.obs2) = (n.sum, n.last, n.obs, n.obs2);
+        (x.sum, x.last, x.obs, x.obs2, x.hs, x.he, x.hv) = (n.sum, n.last, n.obs, n.obs2, n.hs, n.he, n.hv);
     }
     fn gdrop(&mut self, g: u64) {
         let x = self.held.remove(&g).unwrap();
@@ -409,10 +521,15 @@ struct TMutexEntry {
 }
 fn compare_all(c: &Conc, e: &TestEntry, st: &Value, what: &str, step: usize, mism: &mut Vec<Value>) {
     let model = st["all"].as_array().unwrap();
-    let exp = if model.is_empty() { Agg { sum: 0, last: None, obs: vec![], obs2: vec![] } } else { agg_of_model(c, &model[0]) };
+    let mut exp = if model.is_empty() { Agg { sum: 0, last: None, obs: vec![], obs2: vec![], hs: vec![], hv: vec![], he: 0 } } else { agg_of_model(c, &model[0]) };
     let got = agg_of_entry(e);
+    if what == "mutex_direct" {
+        // #[aggregate(direct)] inputs cannot carry histograms (no AggregateValue<Histogram> impl)
+        (exp.hs, exp.hv, exp.he) = (got.hs.clone(), got.hv.clone(), got.he);
+    }
     if got != exp {
-        let field = if got.sum != exp.sum { "summed field" } else if got.last != exp.last { "keep-last field" } else { "distribution field" };
+        let field = if got.sum != exp.sum { "summed field" } else if got.last != exp.last { "keep-last field" }
+                else if got.obs != exp.obs || got.obs2 != exp.obs2 { "distribution field" } else { "distribution field fed by the inputs' own histograms" };
         mism.push(json!({"step": step, "sink": what, "what": format!("{field} of the embedded aggregate"),
                          "expected": format!("{exp:?}"), "got": format!("{got:?}")}));
     }
@@ -435,7 +552,7 @@ impl Target for TMutexEntry {
         type G = metrique_aggregation::sink::CloseAndMergeOnDrop<InNk, MutexSink<Aggregate<InNk>>>;
         let gd = self.guards.get_mut(&g).unwrap().downcast_mut::<G>().unwrap();
         let n = c.input_nk(v);
-        (gd.sum, gd.last, gd.obs, gd.obs2) = (n.sum, n.last, n.obs, n.obs2);
+        (gd.sum, gd.last, gd.obs, gd.obs2, gd.hs, gd.he, gd.hv) = (n.sum, n.last, n.obs, n.obs2, n.hs, n.he, n.hv);
     }
     fn gdrop(&mut self, g: u64) {
         drop(self.guards.remove(&g));
@@ -563,15 +680,15 @@ impl Target for TWorker {
         match self.d.as_ref().unwrap() {
             Driver::WorkerKeyed(_) => {
                 let gd = self.guards.get_mut(&g).unwrap().downcast_mut::<WGuard<KeyedAggregator<In>>>().unwrap();
-                (gd.sum, gd.last, gd.obs, gd.obs2) = (n.sum, n.last, n.obs, n.obs2);
+                (gd.sum, gd.last, gd.obs, gd.obs2, gd.hs, gd.he, gd.hv) = (n.sum, n.last, n.obs, n.obs2, n.hs, n.he, n.hv);
             }
             Driver::WorkerTee(_) => {
                 let gd = self.guards.get_mut(&g).unwrap().downcast_mut::<WGuard<TeeInner>>().unwrap();
-                (gd.sum, gd.last, gd.obs, gd.obs2) = (n.sum, n.last, n.obs, n.obs2);
+                (gd.sum, gd.last, gd.obs, gd.obs2, gd.hs, gd.he, gd.hv) = (n.sum, n.last, n.obs, n.obs2, n.hs, n.he, n.hv);
             }
             Driver::Tee(_) => {
                 let x = self.held.get_mut(&g).unwrap();
-                (x.sum, x.last, x.obs, x.obs2) = (n.sum, n.last, n.obs, n.obs2);
+                (x.sum, x.last, x.obs, x.obs2, x.hs, x.he, x.hv) = (n.sum, n.last, n.obs, n.obs2, n.hs, n.he, n.hv);
             }
         }
     }
@@ -672,7 +789,8 @@ fn cmd_replay(a: &HashMap<String, String>) {
     for b in &beh {
         let id = b["id"].as_u64().unwrap_or(0);
         let mut rng = util::rng(seed ^ id.wrapping_mul(0x9E37_79B9_7F4A_7C15));
-        let conc = Conc::new(&mut rng);
+        let mut conc = Conc::new(&mut rng);
+        conc.nvals = b["nvals"].as_u64().unwrap_or(2);
         let steps = b["steps"].as_array().unwrap();
         let mut mism: Vec<Value> = Vec::new();
         let mut flushes = 0u64;
@@ -686,8 +804,19 @@ fn cmd_replay(a: &HashMap<String, String>) {
             .cloned().collect();
         for mut t in make_targets(&use_kinds) {
             let before = mism.len();
+            let mut guard_ids: HashMap<u64, u64> = HashMap::new();
             for (i, st) in steps.iter().enumerate() {
                 let (k, v, g) = (st["k"].as_u64().unwrap(), st["v"].as_u64().unwrap(), st["g"].as_u64().unwrap());
+                // the model input the operation is about (a guard keeps the id it was created with)
+                match st["op"].as_str().unwrap() {
+                    "Merge" => conc.cur_id.set(st["id"].as_u64().unwrap()),
+                    "GCreate" => {
+                        guard_ids.insert(g, st["id"].as_u64().unwrap());
+                        conc.cur_id.set(st["id"].as_u64().unwrap())
+                    }
+                    "GMutate" => conc.cur_id.set(guard_ids[&g]),
+                    _ => {}
+                }
                 let r = util::catch(std::panic::AssertUnwindSafe(|| match st["op"].as_str().unwrap() {
                     "Merge" => t.merge(&conc, k, v, rng.random::<bool>()),
                     "GCreate" => t.gcreate(&conc, g, k, v),
@@ -864,7 +993,11 @@ fn run_scen(sc: &Scen) {
             for j in 0..p.n {
                 let id = first + j;
                 let k = rng.random_range(1..=nk);
-                let input = In { ck: ConstKey(3), name: format!("key-{k}"), sum: 1u64 << id, last: id, obs: Duration::from_millis(id), obs2: id };
+                let one = |ms: u64| { let mut h = Histogram::<Duration, SortAndMerge>::default(); h.add_value(Duration::from_millis(ms)); h };
+                let mut he = Histogram::<Duration>::default();
+                he.add_value(Duration::from_millis(id));
+                let input = In { ck: ConstKey(3), name: format!("key-{k}"), sum: 1u64 << id, last: id, obs: Duration::from_millis(id), obs2: id,
+                                 hs: one(id), he, hv: one(id) };
                 trace::evi("SendStart", &[("p", pid), ("i", id as i64), ("k", k as i64)]);
                 if p.via_guard {
                     drop(input.close_and_merge(h.clone()));
